@@ -205,3 +205,8 @@ mod tests {
         assert_eq!(out, [0xF5, 4, 0, 8, 0, 0, 0, 0]);
     }
 }
+
+// verification hook (guard: cfg(kani)); contract harnesses live outside the repository
+#[cfg(kani)]
+#[path = "/verif/kani/ntp_proto/packet/v5/extension_fields.rs"]
+mod verif;
